@@ -61,6 +61,14 @@ type ElemPtr struct {
 	Elem types.Type
 }
 
+// ElemFieldPtr is the address of one field of a struct-typed slice element.
+type ElemFieldPtr struct {
+	Arr   Term
+	Idx   Term
+	Elem  types.Type
+	Field int
+}
+
 type GlobalPtr struct {
 	G *ssa.Global
 }
@@ -554,6 +562,7 @@ func (st *State) loadAt(h *heapSnap, key string, ref Term, t types.Type, emb fun
 			Elem: u.Elem(),
 		}
 		st.assumeSliceInv(s)
+		st.allocatedBefore(s.Arr)
 		return s
 	}
 	sort, ok := st.x.sortOf(t)
@@ -564,7 +573,20 @@ func (st *State) loadAt(h *heapSnap, key string, ref Term, t types.Type, emb fun
 	if sort == sStr {
 		st.assume(app(sBool, nil, "bvsle", bv64(0), app(sBV(64), nil, "str_len", v)))
 	}
+	if sort == sRef {
+		st.allocatedBefore(v)
+	}
 	return v
+}
+
+// allocatedBefore records that a reference read from the heap was allocated no later than now, hence differs
+// from everything allocated afterwards on this path.
+func (st *State) allocatedBefore(v Term) {
+	if st.x.noDef {
+		return
+	}
+	st.declareOnce("is_fresh", "(declare-fun is_fresh (Ref) Int)")
+	st.assume(Term{S: fmt.Sprintf("(and (>= (is_fresh %s) 0) (<= (is_fresh %s) %d))", v.S, v.S, st.x.freshCounter), Sort: sBool})
 }
 
 func (st *State) loadStruct(h *heapSnap, ref Term, S *types.Struct, named types.Type) Val {
@@ -642,7 +664,9 @@ func (st *State) asTerm(v Val, t types.Type) Term {
 	case FieldPtr:
 		ft := tv.S.Field(tv.Idx).Type()
 		if _, ok := under(ft).(*types.Struct); ok {
-			return st.embRef(tv.SN, tv.S.Field(tv.Idx).Name(), tv.Ref)
+			r := st.embRef(tv.SN, tv.S.Field(tv.Idx).Name(), tv.Ref)
+			r.Typ = types.NewPointer(ft)
+			return r
 		}
 		panic(unsupported{"pointer to non-struct field escapes: " + tv.SN + "." + tv.S.Field(tv.Idx).Name()})
 	case *ClosureV:
